@@ -3034,6 +3034,8 @@ class FilterTableWrite(APCI):
             raise ConversionError("Number out of range.")
         if not 0 <= self.filter_table_address <= 0xFFFF:
             raise ConversionError("Filter table address out of range.")
+        if not self.data:
+            raise ConversionError("Data must not be empty.")
 
         size = len(self.data)
         payload = struct.pack(
@@ -3225,6 +3227,8 @@ class RouterMemoryWrite(APCI):
             raise ConversionError("Number out of range.")
         if not 0 <= self.memory_address <= 0xFFFF:
             raise ConversionError("Memory address out of range.")
+        if not self.data:
+            raise ConversionError("Data must not be empty.")
 
         size = len(self.data)
         payload = struct.pack(
